@@ -59,16 +59,22 @@ def gen_filter_case(rng, tier, R, Q, channel=2, lorch=False, omitted=False):
                      "dgr": uk1, "dy": uk2, "r0_is_0": r[0] == 0.0, "lorch": lorch, "omitted": omitted}}
 
 
-def call_filter(pystog, case, R=None, Q=None, gr=None, y=None, dgr="same", dy="same"):
-    ff = pystog.FourierFilter()
+def option_kwargs(case):
+    kw = L.kwargs_of(case["mat"])
+    form = case.get("flagform", "bool")
+    if case["lorch"]:
+        kw["lorch"] = F.flag_value(True, form)
+    if case["omitted"]:
+        kw["OmittedXrangeCorrection"] = F.flag_value(True, form)
+    return kw
+
+
+def call_filter(pystog, case, R=None, Q=None, gr=None, y=None, dgr="same", dy="same", ff=None):
+    ff = ff or pystog.FourierFilter()
     R = case["R"] if R is None else R
     Q = case["Q"] if Q is None else Q
     f = getattr(ff, "%s_using_%s" % (L.GN[R], L.RN[Q]))
-    kw = L.kwargs_of(case["mat"])
-    if case["lorch"]:
-        kw["lorch"] = True
-    if case["omitted"]:
-        kw["OmittedXrangeCorrection"] = True
+    kw = option_kwargs(case)
     a = case["dgr"] if isinstance(dgr, str) else dgr
     b = case["dy"] if isinstance(dy, str) else dy
     out = f(np.array(case["r"], float), np.array(case["gr"] if gr is None else gr, float), np.array(case["q"], float),
@@ -78,8 +84,23 @@ def call_filter(pystog, case, R=None, Q=None, gr=None, y=None, dgr="same", dy="s
 
 
 def run_filter(pystog, case):
-    out = call_filter(pystog, case)
-    return {n: (None if o is None else o.tolist()) for n, o in zip(OUT, out)}
+    """on a FourierFilter object that has been used before and is used again afterwards (props/reuse.py)"""
+    from . import reuse
+    ff = pystog.FourierFilter()
+    alt_g, alt_dg = reuse.alt_data(case["gr"])
+    alt_y, alt_dy = reuse.alt_data(case["y"])
+
+    def call(alt, with_dy):
+        if alt:
+            return [o for o in call_filter(pystog, case, gr=alt_g, y=alt_y, dgr=alt_dg if with_dy else None, dy=alt_dy if with_dy else None, ff=ff) if o is not None]
+        return call_filter(pystog, case, ff=ff)
+    reuse.prime(call)
+    out = call(False, None)
+    res = {n: (None if o is None else o.tolist()) for n, o in zip(OUT, out)}
+    msg = reuse.hold(call, [o for o in out if o is not None], "%s_using_%s" % (L.GN[case["R"]], L.RN[case["Q"]]))
+    if msg:
+        res["reuse_error"] = msg
+    return res
 
 
 def filter_to_coq(case, res):
